@@ -604,6 +604,75 @@ def gen_unordered():
 GENERATORS['Unordered.v'] = gen_unordered
 
 
+# ---------------------------------------------------------------- README (C04, C12)
+def gen_readme():
+    md = read('README.md')
+    # the 12-kind listing: pairs of `// #[name(A)]` comment and `impl PATH<[&]A> for [&]B { ... }`
+    listing = re.findall(r'//\s*#\[(\w+)\(A\)\]\s*\n\s*impl\s+([\w:]+)<(&?)A>\s+for\s+(&?)B\s*\{', md)
+    if len(listing) != 12:
+        raise TranslateError('README: the 12-kind listing was not recognised (%d entries)' % len(listing))
+    # the shortcut table
+    rows = re.findall(r'^\|\s*\*\*#\[(\w+)\(\)\]\*\*\s*\|(.*)\|\s*$', md, flags=re.M)
+    head = re.search(r'^\|\s*\|((?:\s*#\[\w+\(\)\]\s*\|)+)\s*$', md, flags=re.M)
+    if not head or len(rows) != 6:
+        raise TranslateError('README: the shortcut table was not recognised')
+    cols = re.findall(r'#\[(\w+)\(\)\]', head.group(1))
+    table = {c: [] for c in cols}
+    for name, cells in rows:
+        cs = [c.strip() for c in cells.split('|')]
+        if len(cs) != len(cols):
+            raise TranslateError('README: shortcut table row %s has %d cells' % (name, len(cs)))
+        for c, cell in zip(cols, cs):
+            if '✔' in cell:
+                table[c].append(name)
+            elif '❌' not in cell:
+                raise TranslateError('README: unexpected cell %r' % cell)
+    same = 'Exactly the same shortcuts apply to *fallible* conversions' in md
+    if not same:
+        raise TranslateError('README: the sentence extending the shortcuts to fallible conversions is gone')
+    o = []
+    o.append('(* GENERATED by tools/translate.py from /repo/README.md - do not edit. *)')
+    o.append('From Coq Require Import List String.')
+    o.append('Import ListNotations.')
+    o.append('Open Scope string_scope.')
+    o.append('')
+    o.append('(* the 12-kind listing: (instruction named in the comment, trait path, counterpart by reference, self by reference) *)')
+    o.append('Definition readme_listing : list (string * string * bool * bool) :=')
+    o.append('  ' + coq_list(['(%s, %s, %s, %s)' % (coq_str(n), coq_str(t), coq_bool(a == '&'), coq_bool(b == '&')) for n, t, a, b in listing]) + '.')
+    o.append('(* shortcut table: column (shortcut) -> rows (basic instructions) ticked *)')
+    o.append('Definition readme_shortcuts : list (string * list string) :=')
+    o.append('  ' + coq_list(['(%s, %s)' % (coq_str(c), coq_strs(table[c])) for c in cols]) + '.')
+    o.append('Definition readme_basic_rows : list string := %s.' % coq_strs([r[0] for r in rows]))
+    o.append('(* "Exactly the same shortcuts apply to fallible conversions." *)')
+    o.append('Definition readme_fallible_same : bool := true.')
+    o.append('')
+    return '\n'.join(o), {'listing': len(listing), 'shortcuts': cols}
+
+
+GENERATORS['Readme.v'] = gen_readme
+
+
+# ---------------------------------------------------------------- o2o-macros: registered helper attributes (C13)
+def gen_macros():
+    src = strip_comments(read('o2o-macros/src/lib.rs'))
+    m = re.search(r'proc_macro_derive\(\s*o2o\s*,\s*attributes\(([^)]*)\)', src, re.S)
+    if not m:
+        raise TranslateError('o2o-macros: #[proc_macro_derive(o2o, attributes(...))] not found')
+    names = [x.strip() for x in m.group(1).replace('\n', ' ').split(',') if x.strip()]
+    o = []
+    o.append('(* GENERATED by tools/translate.py from /repo/o2o-macros/src/lib.rs - do not edit. *)')
+    o.append('From Coq Require Import List String.')
+    o.append('Import ListNotations.')
+    o.append('Open Scope string_scope.')
+    o.append('(* helper attributes registered by the derive: the instructions that have a bare form *)')
+    o.append('Definition bare_attributes : list string := %s.' % coq_strs(names))
+    o.append('')
+    return '\n'.join(o), {'bare': names}
+
+
+GENERATORS['Macros.v'] = gen_macros
+
+
 def main():
     os.makedirs(OUT, exist_ok=True)
     summary = {}
